@@ -252,6 +252,10 @@ bool session_file_storage::read_from_file(int fd,time_t &timeout,std::string &da
 		return false;
 	if(!read_all(fd,&crc,sizeof(crc)) || !read_all(fd,&size,sizeof(size)))
 		return false;
+	// do not trust the size field for the allocation: the record must fit into the file
+	struct stat st;
+	if(::fstat(fd,&st) < 0 || st.st_size < 16 || uint64_t(st.st_size) - 16 < size)
+		return false;
 	std::vector<char> buffer(size,0);
 	impl::crc32_calc crc_calc;
 	if(size > 0) {
